@@ -22,18 +22,68 @@ COMPONENTS = {
 ASSUMPTIONS = [
     "LTO values below the stack's own idle delay (10 ms) are only used for the negotiation clauses, not for traffic",
 ]
-REQUIRED_PROBES = {"quick": ["brs.1", "brs.2", "lr.reduced", "miu.nondefault", "traffic.max_ui"],
-                   "thorough": ["brs.1", "brs.2", "lr.reduced", "miu.nondefault", "traffic.max_ui"]}
+REQUIRED_PROBES = {"quick": ["brs.1", "brs.2", "lr.reduced", "miu.nondefault", "traffic.max_ui", "dep.did"],
+                   "thorough": ["brs.1", "brs.2", "lr.reduced", "miu.nondefault", "traffic.max_ui", "dep.did"]}
 LR = (64, 128, 192, 254)
 MIUS = [128, 129, 131, 248, 1023, 2174, 2175]
 
 
 def phases(tier):
     q = tier == "quick"
-    return [{"name": "grid", "runs": 900 if q else 150000, "params": {}}]
+    return [{"name": "grid", "runs": 900 if q else 150000, "params": {}},
+            {"name": "dep", "runs": 250 if q else 40000, "params": {"dep": True}}]
+
+
+def run_dep(sim, params):
+    """NFC-DEP layer alone (no connect() in between): DID and NAD, which connect() never uses, change the payload
+    limits both sides must derive from the peer's length reduction value"""
+    from checks import c04
+    nfc = core.import_nfc()
+    kernel.install(nfc)
+    import nfc.dep
+    cfg = {"did": sim.wpick("did", [(2, None), (2, 1), (1, 14), (1, 7)]), "nad": sim.wpick("nad", [(3, None), (1, 1), (1, 0x21)]),
+           "lri": sim.pick("lri", [3, 0, 1, 2]), "lrt": sim.pick("lrt", [3, 0, 1, 2]), "brs": sim.pick("brs", [0, 1, 2]),
+           "rwt": sim.pick("rwt", [8, 6, 9]), "timeout": 1.0}
+    lr_i, lr_t = LR[cfg["lri"]], LR[cfg["lrt"]]
+    miu_i2t = lr_t - 3 - (cfg["did"] is not None) - (cfg["nad"] is not None)
+    miu_t2i = lr_i - 3 - (cfg["did"] is not None)
+    # payloads that fill the largest frame exactly, and chained ones
+    P = [bytes([1]) * miu_i2t, bytes([2]) * (2 * miu_i2t + 1), b"p"]
+    Q = [bytes([3]) * miu_t2i, bytes([4]) * (2 * miu_t2i + 1), b"q"]
+    desc = dict(cfg, h="dep")
+    r = c04.conversation(nfc, 0, cfg, P, Q, {}, sim)
+    sim.cls("dep", cfg["did"], cfg["nad"], cfg["lri"], cfg["lrt"], cfg["brs"])
+    if sim.sample is None:
+        sim.sample = dict(desc, frames=r["frames"][:8], act=dict((k_, v) for k_, v in r["act"].items() if k_.endswith("miu")))
+    sim.log("dep", sorted((k_, str(v)) for k_, v in cfg.items()), len(r["frames"]))
+    if "deadlock" in r or "budget" in r:
+        raise Violation("no-progress", "dep", "%s; %r" % (r.get("deadlock") or r.get("budget"), desc))
+    if r["act"].get("I") is None or r["act"].get("T") is None:
+        raise Violation("no-link", "dep", "NFC-DEP activation failed (%r); %r" % (r["act"], desc))
+    if cfg["did"] is not None:
+        sim.probe("dep.did")
+    if r["act"]["I.miu"] != miu_i2t:
+        raise Violation("dep-miu", "initiator (did/nad)", "initiator payload limit %r, target LR %d with DID %r NAD %r gives %d; %r"
+                        % (r["act"]["I.miu"], lr_t, cfg["did"], cfg["nad"], miu_i2t, desc))
+    if r["act"]["T.miu"] > miu_t2i:
+        raise Violation("dep-miu", "target (did)", "target payload limit %r, initiator LR %d with DID %r allows %d; %r"
+                        % (r["act"]["T.miu"], lr_i, cfg["did"], miu_t2i, desc))
+    if r["too_long"]:
+        src, n, limit = r["too_long"]
+        raise Violation("frame-exceeds-lr", "dep from " + ("initiator" if src == "I" else "target"),
+                        "a DEP frame from %s carries %d transport data bytes, receiver LR %d; %r" % (src, n, limit, desc))
+    for side, exc in (("I", r.get("I.exc")), ("T", r.get("T.exc"))):
+        if exc is not None and not isinstance(exc, nfc.clf.CommunicationError):
+            raise Violation("dep-raised", "%s %s" % (side, core.exc_site(exc)), "%s side raised %r (%s) in a fault-free exchange; %r"
+                            % (side, exc, core.exc_line(exc), desc))
+    if [bytes(x) for x in r["T"]] != P or [bytes(x) for x in r["I"]] != Q:
+        raise Violation("dep-data", "dep", "fault-free exchange of frame-filling payloads did not deliver them (%d/%d, %d/%d); %r"
+                        % (len(r["T"]), len(P), len(r["I"]), len(Q), desc))
 
 
 def run_one(sim, params):
+    if params.get("dep"):
+        return run_dep(sim, params)
     nfc = core.import_nfc()
     kernel.install(nfc)
     import nfc.llcp
